@@ -2,6 +2,7 @@ package props
 
 import (
 	"bytes"
+	"context"
 	"fmt"
 	"math/rand/v2"
 
@@ -246,6 +247,80 @@ func genC07(env *core.Env, emit func(core.Case)) {
 				writeCase("wreclen", accepted, fl, randChunks(r, fl), fmt.Sprintf("t%d/%s/chunked", typ, lenClass(l)), l <= 16640 || !accepted)
 			}
 		}
+	}
+	// several connections served by one process, their reads interleaved with small buffers: what one
+	// connection delivers must not depend on what the others are doing (buffers are per connection)
+	for rep := 0; rep < env.Pick(6, 60); rep++ {
+		idx++
+		type one struct {
+			keys   []ech.Key
+			stream []byte
+		}
+		var cs []one
+		nconn := 2 + r.IntN(3)
+		for i := 0; i < nconn; i++ {
+			keys, rec, _, _ := c07Hello(r, true)
+			st := gen.Cat(rec)
+			for j := 0; j < 3; j++ {
+				st = append(st, gen.Record(22, 0x0303, gen.Cat([]byte{11}, gen.RandBytes(r, 200+r.IntN(400))))...)
+			}
+			cs = append(cs, one{keys, st})
+		}
+		size := []int{1, 7, 64}[r.IntN(3)]
+		readAll := func(conns []*ech.Conn, interleave bool) [][]byte {
+			out := make([][]byte, len(conns))
+			done := make([]bool, len(conns))
+			left := len(conns)
+			for left > 0 {
+				for i, c := range conns {
+					if done[i] {
+						continue
+					}
+					for {
+						buf := make([]byte, size)
+						n, err := c.Read(buf)
+						out[i] = append(out[i], buf[:n]...)
+						if err != nil {
+							done[i] = true
+							left--
+							break
+						}
+						if interleave {
+							break // one small read, then the next connection
+						}
+					}
+				}
+			}
+			return out
+		}
+		mk := func() []*ech.Conn {
+			var conns []*ech.Conn
+			for _, c := range cs {
+				conn, err := ech.NewConn(context.Background(), &connh.FakeConn{Chunks: oneChunk(c.stream), Fin: "eof"}, ech.WithKeys(c.keys))
+				if err != nil || !conn.ECHAccepted() {
+					return nil
+				}
+				conns = append(conns, conn)
+			}
+			return conns
+		}
+		w := ""
+		solo, inter := mk(), mk()
+		if solo == nil || inter == nil {
+			w = "harness: a connection of the interleaving stream was not accepted"
+		} else {
+			a := readAll(solo, false)
+			b := readAll(inter, true)
+			for i := range a {
+				if !bytes.Equal(a[i], b[i]) && w == "" {
+					w = fmt.Sprintf("connection %d of %d delivers different bytes when its %d-byte reads are interleaved with reads on the other connections (%d bytes either way)", i, len(a), size, len(a[i]))
+				}
+			}
+		}
+		emit(core.Case{Name: fmt.Sprintf("interleaved/%d", idx), Stream: "interleaved-connections", Key: "interleaved-connections",
+			Ops: []core.Op{{Kind: 'X', Note: "a connection's byte stream is independent of other connections in the same process", Want: w}},
+			Sig: fmt.Sprintf("interleaved/%d/%d", nconn, size), Sample: map[string]any{"connections": nconn, "read_size": size}})
+		env.Count("interleaved-connections")
 	}
 }
 
